@@ -383,10 +383,8 @@ def run(tier, seed, work):
     n = 6 if tier == "quick" else 40
     ncrash = 2 if tier == "quick" else 8
     args = [(i, seed, work, cargo_libcnb, shim, tier, i < ncrash) for i in range(n)]
-    import multiprocessing as mp
-    with mp.get_context("fork").Pool(min(vp.NCPU, n)) as pool:
-        for d in pool.imap_unordered(scenario, args):
-            res.merge(d)
+    for d in vp.pimap(scenario, args, chunksize=1, procs=min(vp.NCPU, n)):
+        res.merge(d)
     res.rule = ("evaluations = runs of the real cargo-libcnb executable whose exit status, stdout and package tree were judged. distinct_nontrivial = distinct "
                 "(workspace shape [#libcnb buildpacks, #additional binaries, #composites, foreign buildpack present], history kind [clean / pre-seed kind / crash], invocation dir kind or call class, profile / amount left behind)")
     res.assumptions = ["only the x86_64-unknown-linux-gnu target is installed here: every run passes --target %s (the default musl target cannot be built)" % TRIPLE,
